@@ -138,14 +138,22 @@ def _dupfree(expr, fn, cls, ctx, depth=0) -> bool:
         # isinstance(x, set/dict) lexical guard
         pm = fn.module.parents()
         for t, pol in lexical_guards(pm, expr):
-            for a, p in guard_atoms([(t, pol)]):
-                if p and a.replace(" ", "") in (
-                    f"isinstance({expr.id},set)", f"isinstance({expr.id},dict)",
-                    f"isinstance({expr.id},(set,dict))",
-                ):
-                    return True
+            if not pol:
+                continue
+            disj = t.values if isinstance(t, ast.BoolOp) and isinstance(t.op, ast.Or) else [t]
+
+            def is_set_test(e):
+                if not (isinstance(e, ast.Call) and call_name(e) == "isinstance" and len(e.args) == 2):
+                    return False
+                if unparse(e.args[0]) != expr.id:
+                    return False
+                kinds = e.args[1].elts if isinstance(e.args[1], ast.Tuple) else [e.args[1]]
+                return all(unparse(k) in ("set", "dict", "frozenset") for k in kinds)
+
+            if all(is_set_test(e) for e in disj):
+                return True
         # parameter of a private constructor: check every call site in the class
-        if expr.id in fn.params and fn.name.startswith("_"):
+        if expr.id in fn.params and fn.name.startswith("_") and not fn.name.startswith("__"):
             pos = fn.params.index(expr.id) - 1
             sites = []
             for mname, m in cls.methods.items():
